@@ -561,3 +561,63 @@ def segments_after_shared_histories(tier, rng, rep):
                 rep.case(key=(t, hist, model), nontrivial=True, sample=inp if (t, hist, model) == (0, "copy_then_setitem", "poincare") else None)
                 if len(rep.failures) >= 3:
                     return
+
+
+@bounded(P, "geodesic_of_a_segment", functions=[H + "Segment.geodesic", H + "Geodesic.circle_parameters", H + "Subspace.sphere_parameters", H + "Segment._compute_aux_data"],
+         note="the bi-infinite geodesic obtained from a segment (Segment.geodesic()): its endpoints are lightlike and lie on the Klein line through the segment's endpoints; its circle / sphere "
+              "is the segment's, passes through the segment's endpoints and meets the boundary at right angles; its arc contains the segment's arc")
+def geodesic_of_a_segment(tier, rng, rep):
+    N = 120 if tier == 'thorough' else 30
+    rep.rule = "n = 2, 3, 4; segments between interior points, from an interior to an ideal point, between ideal points; arbitrary representatives; single and composite (3,); both conformal models"
+    rep.bound = f"{N} segments x 2 models"
+    for t in range(N):
+        n = 2 + t % 3
+        shape = () if t % 2 else (3,)
+        d_ = rng.normal(size=shape + (2, n))
+        rad = rng.uniform(0.1, 0.9, size=shape + (2, 1))
+        if t % 5 == 1:
+            rad[..., 1, :] = 1.0
+        if t % 5 == 2:
+            rad[...] = 1.0
+        k = d_ / np.linalg.norm(d_, axis=-1, keepdims=True) * rad
+        sc = rng.choice([1.0, -2.0, 0.5], size=shape + (2, 1))
+        data = sc * spec.k2proj(k)
+        J = spec.J(n + 1)
+        for model in ("poincare", "halfspace"):
+            inp = {"n": n, "shape": list(shape), "model": model, "segment_data": data.tolist()}
+
+            def body():
+                S = h.Segment(h.Point(data.copy()))
+                G = S.geodesic()
+                e = np.asarray(G.proj_data, dtype=float)
+                if e.shape != data.shape:
+                    rep.fail("geodesic_endpoints", f"shape {e.shape}", inp); return
+                q = np.einsum('...i,ij,...j->...', e, J, e) / np.einsum('...i,...i->...', e, e)
+                if not np.all(np.abs(q) <= 1e-7):
+                    rep.fail("ideal_endpoints_lightlike", f"<e, e> / |e|^2 = {np.asarray(q).tolist()}", inp); return
+                for idx in np.ndindex(*shape):
+                    if np.linalg.matrix_rank(np.concatenate([data[idx], e[idx]]), tol=1e-7) > 2:
+                        rep.fail("ideal_endpoints_on_the_line_through_the_endpoints", f"segment {idx}", inp); return
+                with np.errstate(all='ignore'):
+                    cg, rg = G.sphere_parameters(model=model)
+                    cs, rs = S.sphere_parameters(model=model)
+                cg, rg, cs, rs = (np.asarray(x_, dtype=float) for x_ in (cg, rg, cs, rs))
+                conv = (lambda q_: spec.k2p(q_)) if model == "poincare" else (lambda q_: spec.p2h(spec.k2p(q_)))
+                with np.errstate(all='ignore'):
+                    em = conv(k)
+                for idx in np.ndindex(*shape):
+                    if not (np.all(np.isfinite(cg[idx])) and np.isfinite(rg[idx]) and rg[idx] < 1e3 and np.all(np.isfinite(em[idx])) and np.max(np.abs(em[idx])) < 1e3):
+                        continue
+                    scl = (1 + rg[idx]) ** 2
+                    if not (np.all(np.abs(cg[idx] - cs[idx]) <= 1e-6 * scl) and abs(rg[idx] - rs[idx]) <= 1e-6 * scl):
+                        rep.fail("geodesic_circle_is_the_segment_circle", f"segment {idx}: geodesic centre {cg[idx].tolist()} radius {rg[idx]}, segment centre {cs[idx].tolist()} radius {rs[idx]}", inp); return
+                    for j in (0, 1):
+                        if abs(np.linalg.norm(em[idx][j] - cg[idx]) - rg[idx]) > 1e-6 * scl:
+                            rep.fail("sphere_through_endpoints", f"segment {idx}: the geodesic's sphere misses endpoint {j} of the segment", inp); return
+                    orth = (cg[idx] @ cg[idx] - 1 - rg[idx] ** 2) if model == "poincare" else cg[idx][-1]
+                    if abs(orth) > 1e-5 * scl:
+                        rep.fail("sphere_orthogonal_to_boundary", f"segment {idx}: {orth}", inp); return
+            rep.attempt("sphere_runs", inp, body)
+            rep.case(key=(t, model), nontrivial=True, sample=inp if (t, model) == (0, "poincare") else None)
+            if len(rep.failures) >= 3:
+                return
